@@ -119,6 +119,10 @@ def generate(repo, ws, write_if_changed):
         dict(kind="fn", name="verify_range", impl=r"^impl ExtendedHeader$", wrap="impl ExtendedHeader"),
         dict(kind="fn", name="verify_adjacent_range", impl=r"^impl ExtendedHeader$", wrap="impl ExtendedHeader"),
     ]))
+    emit("store_utils_c02.rs", slice_file(repo, "node/src/store/utils.rs", [
+        dict(kind="struct", name="VerifiedExtendedHeaders", rewrite=[("#[derive(Clone)]", "// derive removed by the slicer")]),
+        dict(kind="impl", impl=r"^impl TryFrom<Vec<ExtendedHeader>> for VerifiedExtendedHeaders$"),
+    ]))
     emit("commitment_c12.rs", slice_file(repo, "types/src/blob/commitment.rs", [
         dict(kind="fn", name="merkle_mountain_range_sizes"),
         dict(kind="fn", name="blob_min_square_size"),
